@@ -37,7 +37,9 @@ Inductive akind :=
    and the keep-alive ping issued by the ping thread *)
 Inductive lkind := LKFetchCtl | LKFetchSend | LKFetchRecv | LKUpload | LKGroupInfo | LKPing.
 
-Inductive ityp := TResult | TError | TGet | TSet.
+(* the type attribute of an incoming iq: "result" | "error" | "get" | "set" | written in any other
+   way ("Error", "RESULT", absent ...): the registries compare case-sensitively *)
+Inductive ityp := TResult | TError | TGet | TSet | TOther.
 (* what of a stanza's shape the "iq" receive handlers look at:
    a <sync> child (contacts layer) / xmlns="urn:xmpp:ping" (iq layer) *)
 Inductive shape := ShPlain | ShSync | ShSPing.
@@ -286,7 +288,18 @@ Definition final (c : cfg) (st : state) (h : list op) : state := fst (run c st h
    stanzas for other ids.  The order "register, then hand down" of the two _sendIq functions is
    a cfg parameter read from the source ([reg_first], [reg_first_iface]).                      *)
 
-Record ndel := mkndel { nid : N; ntyp : ityp; nshape : shape }.
+(* EVERYTHING ELSE an incoming iq carries beyond tag, id, type and the two things the "iq" receive
+   handlers look at ([shape]): further attributes and its children with their attributes -- e.g.
+   the <error code=".." text=".." backoff="3600"/> child of an error reply.  Names and values
+   are byte strings.  The model carries it through the histories and never looks at it
+   (Theorem reply_content_irrelevant); the correspondence run checks that the code does not either. *)
+Definition bytes := list N.
+Definition attrs := list (bytes * bytes).
+Record content := mkcontent { cx_attrs : attrs; cx_children : list (bytes * attrs) }.
+Definition no_content : content := mkcontent [] [].
+
+Record ndel := mkndel { nid : N; ntyp : ityp; nshape : shape; ncontent : content }.
+Definition nd (i : N) (t : ityp) (sh : shape) : ndel := mkndel i t sh no_content.
 
 Fixpoint deliver_all (c : cfg) (st : state) (ds : list ndel) : state * list event :=
   match ds with
@@ -340,14 +353,14 @@ Definition lib_request_sync (c : cfg) (st : state) (lk : lkind) (sync : list nde
 Inductive sop :=
 | SApp (k : akind) (hs he : bool) (rt : retry) (sync : list ndel)
 | SLib (lk : lkind) (sync : list ndel)
-| SDeliver (i : N) (t : ityp) (sh : shape)
+| SDeliver (i : N) (t : ityp) (sh : shape) (ct : content)
 | SOther (i : N).
 
 Definition sstep (c : cfg) (st : state) (o : sop) : state * list event :=
   match o with
   | SApp k hs he rt sync => app_request_sync c st k hs he rt sync
   | SLib lk sync => lib_request_sync c st lk sync
-  | SDeliver i t sh => deliver c st i t sh
+  | SDeliver i t sh _ => deliver c st i t sh
   | SOther _ => (st, [])
   end.
 
@@ -371,17 +384,27 @@ Definition flat1 (o : sop) : list op :=
   match o with
   | SApp k hs he rt sync => AppRequest k hs he rt :: map dl sync
   | SLib lk sync => LibRequest lk :: map dl sync
-  | SDeliver i t sh => [Deliver i t sh]
+  | SDeliver i t sh _ => [Deliver i t sh]
   | SOther i => [DeliverOther i]
   end.
 Definition flatten (h : list sop) : list op := flat_map flat1 h.
+
+(* the same history with the content of every delivered stanza forgotten *)
+Definition erase_nd (d : ndel) : ndel := nd (nid d) (ntyp d) (nshape d).
+Definition erase (o : sop) : sop :=
+  match o with
+  | SApp k hs he rt sync => SApp k hs he rt (map erase_nd sync)
+  | SLib lk sync => SLib lk (map erase_nd sync)
+  | SDeliver i t sh _ => SDeliver i t sh no_content
+  | SOther i => SOther i
+  end.
 
 (* plain histories as histories without nested deliveries *)
 Definition lift (o : op) : sop :=
   match o with
   | AppRequest k hs he rt => SApp k hs he rt []
   | LibRequest lk => SLib lk []
-  | Deliver i t sh => SDeliver i t sh
+  | Deliver i t sh => SDeliver i t sh no_content
   | DeliverOther i => SOther i
   end.
 
